@@ -256,6 +256,75 @@ fn main() {
         oracle(&mut run, &op, site, t, &r, &got);
     }
 
+    // ---- profile states that real training epochs produce: the loop of `Blueprint::solve`
+    //      restated with the public calls (tree -> partition -> regret_vector + policy_vector ->
+    //      add_regret + add_policy -> next), every information set checked on the way; then the
+    //      counter is reset to 0 with the stored values kept (what `Profile::load` yields).
+    {
+        let epochs = if a.thorough() { 400 } else { 24 };
+        let batch = 4;
+        let bp = Blueprint::verif_new(Profile::default(), Encoder::default());
+        let arc = bp.verif_profile();
+        let mut visited = 0u64;
+        for ep in 0..=epochs {
+            let resumed = ep == epochs; // last round: the loaded profile
+            if resumed {
+                arc.write().unwrap().verif_set_epochs(0);
+            }
+            let mut updates = vec![];
+            for _ in 0..batch {
+                let fresh = sites_of(&bp, 1);
+                let p = arc.read().unwrap();
+                let t = p.epochs();
+                for site in fresh.iter() {
+                    let r: Vec<f32> = site.edges.iter().map(|e| p.verif_memory(&site.bucket, e).expect("witnessed").0).collect();
+                    run.evaluations += 1;
+                    visited += 1;
+                    let got = catch(AssertUnwindSafe(|| p.policy_vector(&site.info)));
+                    let bits = r.iter().map(|x| x.to_bits().to_string()).collect::<Vec<_>>().join(" ");
+                    let answer = match &got {
+                        None => "panic".to_string(),
+                        Some(m) => m.values().map(|v| tok(*v)).collect::<Vec<_>>().join(" "),
+                    };
+                    let op = format!("policy32 {} {} {}", site.player, t, bits);
+                    run.line(&op, &answer);
+                    if r.iter().all(|x| x.is_finite()) {
+                        run.line(&format!("policyq {} {} {}", site.player, t, bits), &answer);
+                        oracle(&mut run, &op, site, t, &r, &got);
+                    } else {
+                        run.fail("stored-regret-not-finite", &op, "finite stored regrets", &format!("{r:?}"));
+                    }
+                    run.count(if resumed { "trained-state:resumed(t=0)" } else { "trained-state" });
+                    if r.iter().any(|x| *x != 0.0) {
+                        run.distinct(&(site.player, t, bits));
+                    }
+                    run.spec_checked += 1;
+                    let rv = catch(AssertUnwindSafe(|| p.regret_vector(&site.info)));
+                    match (&rv, &got) {
+                        (Some(rv), Some(pv)) => {
+                            for v in rv.values() {
+                                if !(v.is_finite() && *v >= REGRET_MIN && *v <= REGRET_MAX) {
+                                    run.fail("recorded-regret-outside-clamp", &op, &format!("[{REGRET_MIN:e}, {REGRET_MAX:e}]"), &format!("{v:e}"));
+                                }
+                                run.line(&format!("clamp {}", v.to_bits()), &tok(*v));
+                            }
+                            updates.push((site.bucket.clone(), rv.clone(), pv.clone()));
+                        }
+                        (None, _) => run.fail("regret-vector-panics", &op, "a clamped finite vector", "panic"),
+                        _ => {}
+                    }
+                }
+            }
+            let mut p = arc.write().unwrap();
+            for (b, r, q) in updates {
+                p.add_regret(&b, &robopoker::mccfr::regret::Regret::from(r));
+                p.add_policy(&b, &robopoker::mccfr::policy::Policy::from(q));
+            }
+            p.next();
+        }
+        run.notes.push(format!("training-produced states: {epochs} real epochs x {batch} trees, then counter reset to 0 as by Profile::load; {visited} information-set visits checked"));
+    }
+
     // ---- regret_vector on the sampled trees, stored strategies made extreme
     for bp in &blueprints {
         let arc = bp.verif_profile();
@@ -352,7 +421,7 @@ fn main() {
          {{0,1,2,small,<2^20,<2^40,2^k,usize::MAX-k}} with parity chosen to match the node's player (1/25 deliberately mismatched: must abort), \
          1/60 with a stored NaN/inf (correspondence only); regret_vector on every information set of {tree_rounds} more trees per traverser with \
          the stored average strategy left as is / randomised / made extreme; {clamp_cases} random bit patterns through the clamp expression; \
-         walker at 2064 counters. A policy case is non-trivial always (>= 2 actions or a checked singleton); distinct by (player, t, regret bits)"
+         walker at 2064 counters; plus every information set visited during real training epochs (4 trees per epoch) and after a simulated load. A policy case is non-trivial always (>= 2 actions or a checked singleton); distinct by (player, t, regret bits)"
     );
     run.finish();
 }
